@@ -252,7 +252,11 @@ class IASolverBaseClass:  # pylint: disable=R0902
         self._clear_precoder_filter()
 
         if P is not None:
-            self._P = P
+            # Store a validated COPY of the power (as the `P` setter does):
+            # keeping a reference to the caller's array would let a later
+            # in-place change of that array silently change self.P without
+            # invalidating the power-scaled precoders.
+            self._set_P(P)
 
         self._full_F = full_F
 
